@@ -232,6 +232,11 @@ func c14Render(s *c14Scn, encName string, rnd *rand.Rand) *c14Body {
 				switch e.Pc {
 				case "comp":
 					n := []int{1, 20, 300, 5000}[rnd.IntN(4)]
+					if looked && rnd.IntN(25) == 0 {
+						// end-of-stream content that is small on the wire and large once decompressed: the
+						// statement puts no bound on it ("decompressed exactly when the compressed flag is set")
+						n = []int{1<<20 + 25, 3 << 20}[rnd.IntN(2)]
+					}
 					orig = string(c14PlainBytes(n, rnd.IntN(97)))
 					var err error
 					payload, err = c14Compress(compEnc, []byte(orig))
